@@ -32,10 +32,13 @@ prop("C08", "NFT metadata travels intact", BF, [],
      "Create stores exactly the given metadata (creator = caller, royalties <= 10000); add-URI appends, update-attributes replaces, everything else of the record unchanged; same-shard and destination-side transfers store the sender's / the message's metadata and reject a different hash. The production encoder is the marshaller abstraction (A9).")
 prop("C09", "Tokens only credited to admissible destinations", BF, [],
      "credited && mustVerify => payable on every crediting path of the three transfers; metachain, self and different-length destinations rejected.")
-prop("C10", "Cross-shard messages agree with the ledger", BF, [],
-     "Emitters produce wire(function, arguments) (loop invariants over the real string building loops); the messages of ESDTTransfer, ESDTNFTCreateRoleTransfer and SetUserName are stated explicitly. Parser side: see C12. Not covered: acceptance of every continuation message by the destination-side function as a machine-checked lemma.")
+prop("C10", "Cross-shard messages agree with the ledger", BF + ["contracts:^parsers\\."], [],
+     "Emitters produce wire(function, arguments) (loop invariants over the real string building loops); the emitted messages of ESDTTransfer, ESDTNFTTransfer, MultiESDTNFTTransfer (per-item token, nonce, value/payload), ESDTNFTCreateRoleTransfer and SetUserName are stated argument by argument; every emitted message parses back with the real parser (lemmas); the ESDT transfer parser's report (receiver, per-token identifier/nonce/value, attached call) is specified over the same argument terms as the ledger contracts of the built-in functions (parser = ledger). Not covered: acceptance of every continuation message by the destination-side function as a machine-checked lemma; attached-call function names containing '@' (known finding F9 class).")
 prop("C11", "Built-in functions are total", ["contracts:^builtInFunctions\\.", "vmcommon.SafeSubUint64", "vmcommon.IsAllowedToSaveUnderKey", "vmcommon.IsSystemAccountAddress"], ["safety", "allocbound"],
      "Automatic safety obligations (nil dereference, index/slice bounds, makeslice length and allocation bound, type assertions, division, explicit panics) on every instruction reachable from the 19 entry points (un-contracted callees are inlined), plus the output-shape clause.")
+prop("C12", "Transaction-data parsers are total and inverse to the builders", ["contracts:^parsers\\.", "re:^parsers\\.", "contracts:^builtInFunctions\\.lemmaEmitted", "builtInFunctions.addOutputTransferToVMOutput", "builtInFunctions.addNFTTransferToVMOutput"], ["safety", "allocbound"],
+     "Safety obligations (no panic, bounded allocation) on every function of package parsers under the input-size precondition; exact specification of tokenize/decodeToken/ParseData against the assumed contracts of strings.Split and encoding/hex; lemmas lemmaParseWire and lemmaEmittedMessageParses: every wire-format message, in particular every message the built-in functions' encoders emit, parses with the real call-arguments parser into exactly the encoded function and arguments. Not covered: the tx-data builder package (element-wise hex list) and the deploy / storage-update round trips (known finding F10 concerns the latter).",
+     extra_assume=["A5 strings.Split(s,'@') and encoding/hex contracts; Split o Join = id on the wire format (prelude axiom: neither a name without '@' nor a hex string contains '@')"])
 prop("C13", "Deterministic, input not modified", BF, ["frame", "alias"],
      "Frame proof: every heap component reachable from the input (all fields of ContractCallInput/VMInput, argument backing arrays) and every object that existed before the call is unchanged outside the declared modifies clause; byte slices are immutable values in the model and every store into one is rejected by the generator; appends onto shared prefixes must reallocate (cap == len object invariant). Determinism follows from the absence of goroutines, maps-range-dependent outputs and hidden state in the checked fragment plus deterministic dependencies (A10).")
 prop("C15", "Token state well-formed", BF, [],
